@@ -111,7 +111,7 @@ func deadOutbound(v any) (string, bool) {
 func tm(id string) *remote.TestMessage { return &remote.TestMessage{Data: []byte(id)} }
 
 func runVariant(p rparams.Params) out {
-	addrA, addrB := freeAddr(), freeAddr()
+	addrA, addrB, addrC := freeAddr(), freeAddr(), freeAddr()
 	norm := func(pid *actor.PID) string {
 		if pid == nil {
 			return ""
@@ -122,6 +122,8 @@ func runVariant(p rparams.Params) out {
 			a = "10.0.0.1:4000"
 		case addrB:
 			a = "10.0.0.2:4000"
+		case addrC:
+			a = "10.0.0.3:4000"
 		}
 		return a + "/" + pid.ID
 	}
@@ -167,17 +169,16 @@ func runVariant(p rparams.Params) out {
 	}
 
 	var eb *actor.Engine
-	var rb *remote.Remote
-	startB := func() error {
-		rb = remote.New(addrB, remote.NewConfig())
-		var err error
-		eb, err = actor.NewEngine(actor.NewEngineConfig().WithRemote(rb))
+	var rb, rc *remote.Remote
+	startPeer := func(addr, prefix string) (*actor.Engine, *remote.Remote, error) {
+		r := remote.New(addr, remote.NewConfig())
+		e, err := actor.NewEngine(actor.NewEngineConfig().WithRemote(r))
 		if err != nil {
-			return err
+			return nil, nil, err
 		}
 		for i := 1; i <= 2; i++ {
-			name := fmt.Sprintf("t%d", i)
-			eb.SpawnFunc(func(c *actor.Context) {
+			name := fmt.Sprintf("%st%d", prefix, i)
+			e.SpawnFunc(func(c *actor.Context) {
 				m, ok := c.Message().(*remote.TestMessage)
 				if !ok {
 					return
@@ -193,7 +194,18 @@ func runVariant(p rparams.Params) out {
 				o.mu.Unlock()
 			}, "t", actor.WithID(fmt.Sprint(i)))
 		}
-		return nil
+		return e, r, nil
+	}
+	startB := func() error {
+		var err error
+		eb, rb, err = startPeer(addrB, "")
+		return err
+	}
+	if p.Peers == 2 {
+		var err error
+		if _, rc, err = startPeer(addrC, "c."); err != nil {
+			return out{Kind: "record", Variant: p.String(), Detail: "engine C: " + err.Error()}
+		}
 	}
 	if !p.Down() {
 		if err := startB(); err != nil {
@@ -204,6 +216,9 @@ func runVariant(p rparams.Params) out {
 		ra.Stop().Wait()
 		if rb != nil {
 			rb.Stop().Wait()
+		}
+		if rc != nil {
+			rc.Stop().Wait()
 		}
 	}()
 
@@ -218,6 +233,9 @@ func runVariant(p rparams.Params) out {
 			for i := 0; i < p.PerT; i++ {
 				id := fmt.Sprintf("%d.%d", t, i)
 				tgt := actor.NewPID(addrB, fmt.Sprintf("t/%d", 1+(t+i)%p.Targets))
+				if p.Peers == 2 && i%2 == 1 {
+					tgt = actor.NewPID(addrC, "t/1")
+				}
 				if p.WithSender && i%2 == 1 {
 					snd := actor.NewPID(addrA, fmt.Sprintf("x/%d", t))
 					if p.SelfSender {
